@@ -20,7 +20,7 @@ CLAIMS = {
           "Coq proof of the acceptance mechanism + bit-exact correspondence + accuracy experiment", "3/C01", True),
  "C02": C("Order conditions of every rooted tree up to p (and failure at p+1), embedded-estimator orders and row sums are Coq theorems over the tableaux regenerated from the Rust constants on every run, universally quantified over trees via a proved-complete enumeration: RK4 (4), RK23 (3, estimator 2->q=3), DOPRI5 (5, estimator 4->q=5), exact and as rounded to binary64; DOP853 (8; estimators of order 5 and 3; not 9) with the 30-digit decimals handled as scaled integers over the tableau's common denominator (every residual is M/D^|t| with |M| bounded by the certificate: <= gamma*1e-25, <= gamma*1e-13 for the binary64 values); Radau (5, not 6) for the effective matrix Aeff = T Lambda^-1 TI computed from the code's T, TI, U1, ALPH, BETA, whose stage equations on y'=lambda*y are proved (over the reals, every z with Q(z)<>0) to have the unique solution ynew = P(z)/Q(z) y with P, Q within 1e-15 of the (2,3) Pade approximant. That the code's Newton iteration has those stage equations as its fixed point is tied by the bit-exact replay and by single steps of the implementation compared with the Pade value (z down to -1e8), not by a theorem." + TIE,
           "Coq proof: rational / scaled-integer order-condition certificates (vm_compute + enumeration completeness) over constants translated from source; real-number proof of the stability function", "3/C02", True),
- "C03": C("Coq theorems (real-arithmetic semantics, any kernel/right-hand side/callback, DOPRI5 skeleton): accepted abscissae move strictly toward xend and never pass it, Success implies x = xend, x = xend implies Success or UserInterrupt." + TIE,
+ "C03": C("Coq theorems (real-arithmetic semantics, any kernel / right-hand side / Jacobian / mass / callback): DOPRI5, DOP853, RK23, RK4 skeletons: accepted abscissae move strictly toward xend and never pass it, Success implies x = xend, x = xend implies Success or UserInterrupt; Radau and BDF (whole low-level solver): Success implies x = xend (Radau through the invariant that the `last` flag is cleared on every path that changes the step); event-function evaluations during root refinement stay inside the step (C08). Not theorems: monotonicity / never-past-xend for Radau and BDF, the evaluation-time clause for the right-hand side, finiteness under Success -- replay + oracles over the configuration sweep (spans 1e-12.., first_step >= span, all six methods)." + TIE,
           "Coq proof of skeleton invariants over R + bit-exact correspondence", "3/C03", True),
  "C04": C("Coq theorems: on binary64 a NaN error norm fails every comparison and Rust's min/max drop NaN (Floats.FloatAxioms), rejections never enlarge the step (real semantics), a finite budget bounds the number of attempts. Float-level termination with an unlimited budget is not proved: watchdog runs on pathological problems." + TIE,
           "Coq proof of the termination mechanism + watchdog differential runs", "3/C04", True),
